@@ -381,6 +381,26 @@ def mapper_many(p):
                 return fail(problem='probe', probe=probe)
         if list(st.iterate_map((0,))) != [('k', j) for j in range(0, n, 2)] or list(st.iterate_map((5,))) != [('k', j) for j in range(1, n, 2)]:
             return fail(problem='iterate_map', n=n)
+        if p.get('release'):
+            # release phase: every group but two low ones (one of them solver-chosen) is unmapped - in ascending or descending order - and as many new groups
+            # are mapped: an index handed out now must differ from every index still in use (the kept groups and the new ones)
+            keep = (0, 1 + _sel(a[0], 3))
+            order = list(range(n)) if p['release'] == 'asc' else list(range(n - 1, -1, -1))
+            for j in order:
+                if j in keep:
+                    continue
+                parent = (0,) if j % 2 == 0 else (5,)
+                st.del_map(parent, ('k', j))
+                del used[(parent, ('k', j))]
+            for j in range(n, 2 * n):
+                parent = (0,) if j % 2 == 0 else (5,)
+                idx = st.add_map(parent, ('k', j))
+                if idx in used.values():
+                    return fail(problem='index %r handed out while still in use' % (idx,), n=n, j=j, kept=keep, in_use=sorted(used.values()))
+                used[(parent, ('k', j))] = idx
+            for (parent, mk_), idx in used.items():
+                if st.get_map(parent, mk_) != idx:
+                    return fail(problem='lookup of %r after the release phase' % (mk_,), n=n)
         return True
     return mk('mapper_many', [('probe', 'int')], ['0 <= probe <= %d' % n], body)
 
@@ -419,6 +439,9 @@ def obligations(tier, seed):
             obs.append(Ob(PROP, 'far', dict(type=t, i0=i0), budget=b, group='far indices', bound=dict(far_index=i0, neighbours='solver-chosen', type=t)))
     for nm in ((9, 17, 18, 33, 40) if q else (9, 17, 18, 33, 40, 65, 130, 258)):
         obs.append(Ob(PROP, 'mapper_many', dict(nmax=nm), budget=b * 2, group='many groups', bound=dict(groups=nm, probe='solver-chosen group')))
+        if nm <= 40:
+            for rel in ('asc', 'desc'):
+                obs.append(Ob(PROP, 'mapper_many', dict(nmax=nm, release=rel), budget=b * 2, group='many groups', bound=dict(groups=nm, then='all but two low groups unmapped (%s), as many new groups mapped' % rel)))
     obs.append(Ob(PROP, 'mapper_step', dict(), budget=b, bound=dict(parent_keys=2, map_keys=2, step='one operation from an arbitrary map state')))
     obs.append(Ob(PROP, 'step', dict(k=2, type='int', _twin='reach'), budget=60, expect='refute'))
     obs.append(Ob(PROP, 'mapper_step', dict(_twin='reach'), budget=60, expect='refute'))
